@@ -19,6 +19,18 @@ CLAIMED = {
     ),
 }
 
+CLAIMED["C11"] = dict(
+    text=("Bounded model checking of the real bump-arena code: one inductive step of every operation (alloc_raw/alloc_raw_bump via "
+          "allocate, allocate_zeroed, alloc_uninit_slice; grow, grow_zeroed, shrink, reset, decommit) from an arbitrary state satisfying "
+          "the representation invariant, over all 64-bit sizes and offsets, with the OS commit call free to fail; scratch-arena "
+          "flip/flop, nested borrow/drop and re-initialisation; both debug-assertion profiles (poison fills included). "
+          "Bounded: capacity 4 chunks, alignments <= 4096 (2^13..2^16 in the known-finding instance), content checks in a 512-byte window."),
+    ref="DESIGN.md 3 (C11)",
+    note=("Trusted: Kani/CBMC/CaDiCaL; recording stubs for reserve/commit/decommit/release (commit may fail); the arena state is "
+          "constructed directly from symbolic commit/offset; real mmap/mprotect behaviour, Windows/wasm back ends and std's Vec growth "
+          "policy are outside the claim."),
+)
+
 NOT_APPLICABLE = {
     "C01": "tree-walk evaluator (Runtime::eval_expr/exec_stmt) cannot be symbolically executed by Kani/CBMC within this machine's memory (7 probe variants, DESIGN.md 4); every clause of the property is evaluator behaviour",
     "C03": "differential between two evaluator runs fed by the whole analysis pipeline on symbolic programs; neither half can be encoded (DESIGN.md 4)",
@@ -29,7 +41,7 @@ NOT_APPLICABLE = {
 }
 
 PENDING = {pid: "check not built yet in this session (planned, see DESIGN.md 3); not claimed until it is"
-           for pid in ["C02", "C04", "C07", "C09", "C10", "C11", "C13", "C15", "C16", "C17", "C18"]}
+           for pid in ["C02", "C04", "C07", "C09", "C10", "C13", "C15", "C16", "C17", "C18"]}
 
 
 def build():
